@@ -371,7 +371,7 @@ def obligations(tier):
                                       bounded="10 sampled column values per literal (null, the literal itself, embedded, doubled, reversed, unrelated); native execution", carveouts={"regex_meta_pattern": "pattern contains regex metacharacters", "whole": "whole obligation"}))
     from . import c06
 
-    obs.append(Obligation("C18/L5/literal_defaults_below_outer_joins", "L5", "computed columns with literal defaults (fill_null(0), when(..).then(-1), constants) on the null-extended side of outer joins: the literal's value does not change where it is evaluated (= C06/N5)", c06.n5_run,
+    obs.append(Obligation("C18/L5/literal_defaults_below_outer_joins", "L5", "computed columns with literal defaults (fill_null(0), when(..).then(-1), constants) on the null-extended side of outer joins: the literal's value does not change where it is evaluated (= C06/N5)", c06.n5_core_run,
                           functions=[H.fn_info(H.pdt._internal.pipe.cache.null_for_null_input)], bounded="the C06/N5 join matrix (operand variants right_const / right_computed / left_computed / *_alias)"))
     obs.append(Obligation("C18/L4/str_join_delimiter", "L4", "the delimiter of str.join is a correctly quoted literal in the SQL text of every dialect, with and without arrange=", l4_run, functions=[H.fn_info(H.sqlite_backend.SqliteImpl.compile_ordered_aggregation)],
                           bounded="7 delimiters x ordered / unordered x 3 dialects (rendered text)", carveouts={"strjoin_ordered_sqlite": "':x' / '%' as delimiter of an ordered str.join on SQLite", "pyformat_literal": "'%(a)s' on the dialects with positional parameters"}))
